@@ -34,11 +34,16 @@ static void msg_init(const uint8_t *type, uint32_t n)
   vf_header_init(&the_hdr, &the_ctx, &the_msg);
   m_msg = &the_msg;
 }
-/* raw inbound bytes for the abstract-message harnesses: "34=" + 7 decimal digits + SOH (the real header scan + fast_atoi run on them) */
-static uint32_t raw_seq(uint8_t *buf, const uint8_t d[7])
+/* raw inbound bytes for the abstract-message harnesses: "34=" + ND decimal digits + SOH (the real header scan + fast_atoi run on them);
+   ND = 10 covers the whole unsigned 32-bit range (the harness assumes the digits' value fits 32 bits), total length 14 <= SSO capacity */
+#ifndef ND
+#define ND 10
+#endif
+static uint32_t raw_seq(uint8_t *buf, const uint8_t d[ND])
 {
-  buf[0] = '3'; buf[1] = '4'; buf[2] = '='; for (int i = 0; i < 7; i++) buf[3 + i] = d[i]; buf[10] = 1; return 11;
+  buf[0] = '3'; buf[1] = '4'; buf[2] = '='; for (int i = 0; i < ND; i++) buf[3 + i] = d[i]; buf[3 + ND] = 1; return 4 + ND;
 }
-static uint32_t digits_value(const uint8_t d[7]) { uint32_t v = 0; for (int i = 0; i < 7; i++) v = v * 10 + (uint32_t)(d[i] - '0'); return v; }
+static uint64_t digits_value(const uint8_t d[ND]) { uint64_t v = 0; for (int i = 0; i < ND; i++) v = v * 10 + (uint64_t)(d[i] - '0'); return v; }
+static void digits_of(uint8_t d[ND], uint32_t v) { for (int q = ND - 1; q >= 0; q--) { d[q] = (uint8_t)('0' + v % 10); v /= 10; } }
 static int str_eq(const uint8_t *a, uint32_t na, const uint8_t *b, uint32_t nb) { if (na != nb) return 0; for (uint32_t i = 0; i < 2; i++) if (i < na && a[i] != b[i]) return 0; return 1; }
 #endif
